@@ -156,6 +156,29 @@ func genPairCase(t *rapid.T) *PairCase {
 		}
 		return c
 	}
+	if rapid.IntRange(0, 11).Draw(t, "interleave") == 0 {
+		// one map, its entries supplied in two orders; the keys are numbers whose texts interleave
+		// with their values (9 < 10, "10" < "5.5" < "9"), integral and fractional, small and beyond int64
+		pool := []float64{9, 10, 5.5, 2, 100.25, 1e19, 1, 33, 4.75, -3}
+		n := rapid.IntRange(3, 6).Draw(t, "nkeys")
+		seen := map[float64]bool{}
+		v := &m.Val{T: m.Map(m.Num, m.Str)}
+		for len(v.M) < n {
+			k := pool[rapid.IntRange(0, len(pool)-1).Draw(t, "key")]
+			if seen[k] {
+				continue
+			}
+			seen[k] = true
+			v.M = append(v.M, m.Entry{K: m.VNum(k), V: m.VStr(gen.Str(t))})
+		}
+		w := &m.Val{T: v.T}
+		for i := len(v.M) - 1; i >= 0; i-- {
+			w.M = append(w.M, v.M[i])
+		}
+		c.V, c.W, c.Rel = v, w, "permuted"
+		c.Host = rapid.Bool().Draw(t, "host")
+		return c
+	}
 	switch rapid.IntRange(0, 5).Draw(t, "rel") {
 	case 0:
 		c.Rel, c.W = "copy", c.V
@@ -281,6 +304,12 @@ func checkPair(c *PairCase) *Outcome {
 	}
 	if ge != eq {
 		return bad("Equals = %v, the values are equal: %v (%s)", ge, eq, desc)
+	}
+	for i := 0; i < 8; i++ {
+		var again string
+		if p := run.Guard(func() { again = yv.String() }); p != nil || again != sv {
+			return bad("rendering one value twice gives %q and %q (%s)", sv, again, desc)
+		}
 	}
 	if (sv == sw) != eq {
 		return bad("values equal: %v, but renderings %q and %q (%s)", eq, sv, sw, desc)
@@ -429,7 +458,7 @@ func eachNumPair(yield func(*NumPair) bool) {
 }
 
 func TestC18(t *testing.T) {
-	R.Rule = "pairs (v, w) of one type (primitives, nested lists / maps / objects / optionals to depth 4): w is a copy, a field-order and insertion-order permutation, v with one leaf changed to a clearly different value (numbers identical or differing by > 1e-6, across 2^53 and 2^63; strings needing escapes; instants, several zones), unrelated, or two different values whose texts coincide once strings are written without quotes (a string holding the container's separator); built through the value constructors (one case in six with repeated sub-values being one shared value on the v side only) or as Go host data through conv; oracle: agreement of val.Equals, Val.String equality, Val.Key equality, isset([v:1], w), union / intersect / diff cardinalities, == / != and string(v) == string(w) for equal values, labelled by the model's own equality; reflexivity and symmetry; plus all pairs of the boundary numeric pool (incl. neighbouring doubles with a fractional part at seven magnitudes) for distinct renderings and keys; non-trivial = a model-equal pair in another representation, or a pair differing in exactly one leaf"
+	R.Rule = "pairs (v, w) of one type (primitives, nested lists / maps / objects / optionals to depth 4): w is a copy, a field-order and insertion-order permutation, v with one leaf changed to a clearly different value (numbers identical or differing by > 1e-6, across 2^53 and 2^63; strings needing escapes; instants, several zones), unrelated, or two different values whose texts coincide once strings are written without quotes (a string holding the container's separator); built through the value constructors (one case in six with repeated sub-values being one shared value on the v side only) or as Go host data through conv; oracle: agreement of val.Equals, Val.String equality, Val.Key equality, isset([v:1], w), union / intersect / diff cardinalities, == / != and string(v) == string(w) for equal values, labelled by the model's own equality; reflexivity and symmetry, the rendering of one value repeated eight times; plus all pairs of the boundary numeric pool (incl. neighbouring doubles with a fractional part at seven magnitudes) for distinct renderings and keys; non-trivial = a model-equal pair in another representation, or a pair differing in exactly one leaf"
 	R.Assume = []string{"model.ValEqual (harness) labels pairs; numbers inside a pair are identical or clearly different (the property's own restriction)"}
 	reportKnown(t, "C18")
 	runRegress(t, "C18")
